@@ -472,7 +472,7 @@ PROPS["C12"] = dict(
 )
 
 PROPS["C01"] = dict(
-    modules=["common", "c01"],
+    modules=["common", "hdrs", "c01"],
     contracts=["multipart.twins", "MultipartDecoder.last_newline", "MultipartDecoder.next_event[DATA]",
                "MultipartDecoder.next_event[PART]", "parse_stream"],
     no_refute=["multipart.twins"],
@@ -505,7 +505,7 @@ PROPS["C01"] = dict(
 )
 
 PROPS["C15"] = dict(
-    modules=["common", "c01"],
+    modules=["common", "hdrs", "c01"],
     contracts=["parse_stream", "multipart.twins", "MultipartDecoder.last_newline", "MultipartDecoder.next_event[DATA]"],
     no_refute=["multipart.twins"],
     refute={"quick": [2], "thorough": [1, 2]},
